@@ -236,6 +236,9 @@ def run(chk):
                 chk.violation("C09 a recording session ends without an exception", dict(config=sc["raw"]), "no exception", ses.result)
                 continue
             chk.count("file_bytes", len(file1))
+            if b"\r" in file1 or not file1.endswith(b"\n"):
+                chk.violation("C09 every line a session writes ends in LF and holds no CR (hypothesis of the byte-prefix theorem)",
+                              dict(config=sc["raw"]), "no CR, LF at the end", file1[-60:].decode("utf-8", "replace"))
             step = 1 if chk.tier == "thorough" or len(file1) - len(file0) < 2500 else 2
             cuts = set(range(len(file0), len(file1) + 1, step))
             for pos in range(len(file0), len(file1)):          # always: the bytes around every line end
@@ -271,6 +274,34 @@ def run(chk):
         finally:
             shutil.rmtree(d, ignore_errors=True)
     chk.count("byte_prefix_cuts", ncuts)
+    # ---- Model.Bytes.read_lines vs text-mode reading (universal newlines), and the hypothesis of the byte-prefix theorem
+    bexprs, bobs = [], []
+    alpha = ["a", "b", "\t", " ", "#", "\r", "\n", "\r\n", "\n\r", "é", "1", ":"]
+    tmpd = session.scratch_dir()
+    try:
+        for i in range(400 if chk.tier == "quick" else 4000):
+            text = "".join(rng.choice(alpha) for _ in range(rng.randint(0, 14)))
+            fn = os.path.join(tmpd, "t.txt")
+            with open(fn, "wb") as f:
+                f.write(text.encode("utf-8"))
+            with open(fn, "r", encoding="utf-8") as f:      # as the loader opens the data file
+                got = [[[ord(c) for c in l.rstrip("\n")], 1 if l.endswith("\n") else 0] for l in f]
+            bexprs.append("sx_lines (read_lines %s)" % core.coq_str(text))
+            bobs.append((text, got))
+    finally:
+        shutil.rmtree(tmpd, ignore_errors=True)
+    try:
+        bres = core.coq_eval(["Lib.Str", "Model.Bytes"], bexprs, chk.scratch, chunk=400, jobs=4)
+        nb = 0
+        for (text, got), m in zip(bobs, bres):
+            if m != got:
+                nb += 1
+                if nb <= 3:
+                    chk.obligation_broken("correspondence", "Model.Bytes.read_lines vs text-mode line iteration", "text %r\n impl %s\n model %s" % (text, got, m))
+        chk.count("read_lines_cases", len(bres))
+        chk.count("read_lines_disagreements", nb)
+    except core.BuildError as exc:
+        chk.obligation_broken("correspondence", "model evaluation (Model.Bytes)", exc)
     try:
         res = core.coq_eval(IMPORTS, [e[2] for e in exprs], chk.scratch, chunk=80, jobs=16)
     except core.BuildError as exc:
